@@ -84,6 +84,7 @@ class RefParser:
         self.prefix = set(prefix)
         self.postfix = set(postfix)
         self.any_prefix = any_prefix
+        self.spans = False      # when True every node carries '_r': (first token index, one past last)
         self.gt = gt or (lambda a, b: a > b)
         self.ge = ge or (lambda a, b: a >= b)
 
@@ -122,18 +123,25 @@ class RefParser:
             return items[0]
         return {'k': 'stmt', 'items': items}
 
+    def _sp(self, node, i0):
+        if self.spans:
+            node['_r'] = (i0, self.i)
+        return node
+
     def expr(self):
+        i0 = self.i
         lhs = self.chain(None, False)
         if self.is_op(self.peek(), '?'):
             self.next()
             a = self.expr()
             self.expect_op(':')
             b = self.expr()
-            return {'k': 'ternary', 'c': lhs, 'a': a, 'b': b}
+            return self._sp({'k': 'ternary', 'c': lhs, 'a': a, 'b': b}, i0)
         return lhs
 
     def chain(self, min_p, strict):
         """operands joined by infix operators whose precedence is > min_p (strict) or >= min_p"""
+        i0 = self.i
         lhs = self.operand()
         while True:
             tok = self.peek()
@@ -160,23 +168,26 @@ class RefParser:
             rhs = self.chain(p, assoc == 'LEFT')
             lhs = {'k': 'binary', 'op': hx(op), 'l': lhs, 'r': rhs}
             if neg:
-                lhs = {'k': 'unary', 'op': hx('not'), 'a': lhs}
+                lhs = {'k': 'unary', 'op': hx('not'), 'a': lhs, '_notform': True} if self.spans else {'k': 'unary', 'op': hx('not'), 'a': lhs}
+            self._sp(lhs, i0)
         return lhs
 
     def operand(self):
         tok = self.peek()
+        i0 = self.i
         if self.is_op(tok) and (tok[1] in self.prefix or self.any_prefix):
             self.next()
             # the operand of a prefix operator is a primary, which may itself start with a prefix operator
-            return {'k': 'unary', 'op': hx(tok[1]), 'a': self.operand()}
+            return self._sp({'k': 'unary', 'op': hx(tok[1]), 'a': self.operand()}, i0)
         return self.primary()
 
     def primary(self):
+        i0 = self.i
         a = self.atom()
         tok = self.peek()
         if self.is_op(tok) and tok[1] in self.postfix:
             self.next()
-            return {'k': 'postfix', 'op': hx(tok[1]), 'a': a}
+            return self._sp({'k': 'postfix', 'op': hx(tok[1]), 'a': a}, i0)
         return a
 
     def seq(self, close, item):
@@ -193,6 +204,13 @@ class RefParser:
         return items
 
     def atom(self):
+        i0 = self.i
+        r = self._atom()
+        if self.spans and '_r' not in r:
+            r['_r'] = (i0, self.i)
+        return r
+
+    def _atom(self):
         tok = self.next()
         if tok is None:
             raise RefError('unexpected end')
@@ -229,8 +247,17 @@ class RefParser:
         raise RefError('unexpected token %r' % (tok,))
 
 
-def ref_parse(tokens, infix, gt=None, ge=None, prefix=BUILTIN_PREFIX, postfix=BUILTIN_POSTFIX, any_prefix=False):
+def strip_spans(j):
+    if isinstance(j, dict):
+        return {k: strip_spans(v) for k, v in j.items() if k not in ('_r', '_notform')}
+    if isinstance(j, list):
+        return [strip_spans(x) for x in j]
+    return j
+
+
+def ref_parse(tokens, infix, gt=None, ge=None, prefix=BUILTIN_PREFIX, postfix=BUILTIN_POSTFIX, any_prefix=False, spans=False):
     p = RefParser(tokens, infix, prefix, postfix, gt, ge, any_prefix)
+    p.spans = spans
     r = p.program()
     if p.peek() is not None:
         raise RefError('trailing tokens')
